@@ -339,8 +339,24 @@ impl World {
             .find(|c| c.address == self.addrs["P"])
             .map(|c| c.typ == rustrtc::transports::ice::IceCandidateType::Host)
             .unwrap_or(false);
+        // the socket media would be sent on (hidden behind the selected pair: an inbound TCP request can
+        // republish it without changing the pair)
+        let selsock = self
+            .agent
+            .subscribe_selected_socket()
+            .borrow()
+            .as_ref()
+            .map(|s| {
+                let d = s.diag();
+                match d.strip_prefix("tcp-stream:peer=").and_then(|a| a.parse::<SocketAddr>().ok()) {
+                    Some(a) => format!("tcp-stream:{}", self.name_of(a)),
+                    None => d.split(':').next().unwrap_or("").to_string(),
+                }
+            })
+            .unwrap_or_else(|| "none".into());
         json!({
             "state": st_name(self.agent.state()),
+            "selsock": selsock,
             "phost": phost,
             "rc": rc,
             "sel": sel,
@@ -439,7 +455,7 @@ fn proj_eq(p: &Value, m: &Value) -> bool {
 
 fn diff_fields(a: &Value, b: &Value) -> Vec<String> {
     let mut out = Vec::new();
-    for f in ["state", "rc", "sel", "nom", "pend", "phost"] {
+    for f in ["state", "rc", "sel", "nom", "pend", "phost", "selsock"] {
         let same = if f == "rc" || f == "pend" {
             let set = |v: &Value| -> BTreeSet<String> {
                 v.as_array().map(|a| a.iter().map(|x| x.to_string()).collect()).unwrap_or_default()
@@ -893,8 +909,8 @@ fn run_group(edges: &[Value], out: &mut Vec<Value>, rng: &mut Rng, stats: &mut B
             if !changed.is_empty() {
                 // the fields the rule speaks about
                 let governed: &[&str] = match rule.as_str() {
-                    "UnauthInert" => &["state", "rc", "sel", "nom"],
-                    "UnmatchedInert" => &["state", "rc", "sel", "nom", "pend"],
+                    "UnauthInert" => &["state", "rc", "sel", "nom", "selsock"],
+                    "UnmatchedInert" => &["state", "rc", "sel", "nom", "pend", "selsock"],
                     _ => &[],
                 };
                 let hit: Vec<String> = changed.iter().filter(|f| governed.contains(&f.as_str())).cloned().collect();
